@@ -498,6 +498,9 @@ func runFsmCaseFaults2(c *vCtx, idx int64, prop string, oracle fsmOracle, cfg fs
 		if hasFFC {
 			c.Count("scripts_with_ffc_events", 1)
 		}
+		if cfg.Constant {
+			c.Count("scripts_with_continuous_recorder", 1)
+		}
 		c.Seen("frame_counter_modes", fmt.Sprint(counter))
 		if counter != 0 {
 			c.Count("scripts_with_non_unique_frame_counter", 1)
@@ -677,6 +680,9 @@ func TestVerif_FSM(t *testing.T) {
 		}
 		rng := c.RNG(myIdx)
 		cfg := fsmRandomConfig(rng)
+		// the continuous recorder runs next to the motion recorder in a third of the scripts
+		// (its files roll over every max-secs*fps+1 frames, also in mid-recording)
+		cfg.Constant = s%3 == 1
 		n := rng.Range(50, 400)
 		if rng.Chance(10) {
 			n = rng.Range(400, 2000)
